@@ -245,6 +245,39 @@ func ruleMustGuard(c *Ctx, r *RuleResult, fnName, initName, lastField, wordParam
 			}
 		}
 	}
+	// the "no previous word" gate reads nil-ness of the field as "nothing added yet": that is only
+	// sound if every word recorded into the field is provably non-nil
+	usesNilGate := false
+	for _, why := range gates {
+		if why == "no previous word" {
+			usesNilGate = true
+		}
+	}
+	if usesNilGate {
+		P := NewProver(c, fn)
+		for _, b := range fn.Blocks {
+			for _, in := range b.Instrs {
+				st, ok := in.(*ssa.Store)
+				if !ok {
+					continue
+				}
+				fa, ok := st.Addr.(*ssa.FieldAddr)
+				if !ok || fa.X != ssa.Value(recv) {
+					continue
+				}
+				stt := fa.X.Type().Underlying().(*types.Pointer).Elem().Underlying().(*types.Struct)
+				if stt.Field(fa.Field).Name() != lastField {
+					continue
+				}
+				r.inst("%s: value recorded in %s is non-nil (nil means 'no previous word')", fnName, lastField)
+				nonNil := P.Prove(P.nilP(st.Val), b)
+				r.oblig(nonNil)
+				if !nonNil {
+					r.find(fnName+":"+lastField+" may be recorded as nil", c.instrPos(st), "%s records %s into %s, which can be nil (the empty word), while the order check treats a nil %s as 'nothing added yet': the empty word can then be added again without an error", fnName, valName(st.Val), lastField, lastField)
+				}
+			}
+		}
+	}
 	r.inst("%s: %d gate edges (order check / no previous word)", fnName, len(gates))
 	for e, why := range gates {
 		r.inst("%s: gate edge %s -> %s (%s)", fnName, e.from.Comment, e.to.Comment, why)
